@@ -4,7 +4,6 @@ import (
 	"fmt"
 	"gopkg.in/yaml.v3"
 	"os"
-	"path/filepath"
 	"sync"
 	"time"
 )
@@ -64,9 +63,13 @@ func (bf *BanFile) Add(ip string, until *time.Time) error {
 		return fmt.Errorf("marshal yaml: %v", err)
 	}
 
-	err = os.WriteFile(filepath.Join(bf.filePath), out, 0644)
-	if err != nil {
+	// Replace the ban file atomically: write a temporary file, then rename it over the final name.
+	tmpPath := bf.filePath + ".tmp"
+	if err := os.WriteFile(tmpPath, out, 0644); err != nil {
 		return fmt.Errorf("write file: %v", err)
+	}
+	if err := os.Rename(tmpPath, bf.filePath); err != nil {
+		return fmt.Errorf("rename file: %v", err)
 	}
 
 	return nil
